@@ -51,7 +51,7 @@ FAULT_KINDS = ("eio", "crash_before", "crash_after", "crash_torn")
 def gen(seed, tier):
     r = rng_for(seed, "workload")
     spec = G.gen_graph(r, n_derived=(1, 3), n_sources=(1, 1), n_rows=(1, 6), max_chunks=3,
-                       kinds=("rowmap", "filter", "multi", "merge2", "rowmap"))
+                       kinds=("rowmap", "filter", "multi", "merge2", "rowmap", "cut"))
     derived = [d for n in spec["nodes"] if n["kind"] != "source" for d in P.names_of(n)]
     target = r.choice(derived)
     processor = r.choice(["threaded_mailbox", "threaded_mailbox", "single_thread"])
